@@ -62,7 +62,11 @@ func cmdCheck(args []string) int {
 	fs := flag.NewFlagSet("check", flag.ExitOnError)
 	prop := fs.String("prop", "", "property id")
 	tier := fs.String("tier", os.Getenv("VERIF_TIER"), "quick|thorough")
-	workers := fs.Int("workers", runtime.NumCPU(), "parallel workers")
+	defW := runtime.NumCPU()
+	if w, err := strconv.Atoi(os.Getenv("GOSYM_WORKERS")); err == nil && w > 0 {
+		defW = w
+	}
+	workers := fs.Int("workers", defW, "parallel workers")
 	verbose := fs.Bool("v", false, "verbose")
 	rootFilter := fs.String("root", "", "only roots whose key contains this")
 	solver := fs.String("solver", "z3", "primary solver")
